@@ -1,26 +1,154 @@
 /-!
 # The reader's caches on a chain of nested loads (reader/reader.go `GetObject`, `objCache`,
-`objStmCache`, `loading`, `maxNestedLoads`)
+`objStmCache`, `loading`, `maxNestedLoads`, `objNeed`, `stmNeed`, `reach`, `nestCached`)
 
-`Model/XrefFile.lean: getObjectB` is `GetObject` without the caches. Within the limit of 16
-objects being loaded inside each other the caches change no answer; beyond it they do, because
-`GetObject` looks into `objCache` BEFORE it counts `len(r.loading)`: an object whose chain of
-nested loads is too long for a fresh reader is answered once the far end of its chain has
-been looked up (and cached) by itself. This file models exactly that, on the family of files
-the harness writes for it:
+`Model/XrefFile.lean: getObjectB` is `GetObject` without the caches. `GetObject` refuses a load
+when 16 objects are already being loaded inside each other. Since the repair of
+C04/nested-limit-answer-depends-on-earlier-lookups a cache hit is counted as the load it stands
+for: with each cached object (`objNeed`) and each cached object stream (`stmNeed`) the reader
+remembers how many objects were being loaded inside each other while it was loaded, and
+`nestCached` refuses the hit when `len(r.loading)` + that need exceeds the limit. `reach` is the
+high-water mark of `len(r.loading)` that measures the need. This file models exactly that, on
+the family of files the harness writes for it:
 
 * integers `A 1 … A d`; for `i < d`, `A i` is member 0 of the object stream `S i`, and the
   `/Length` of `S i` is the reference `A (i+1)`; `A d` is a plain object;
+* integers `B 1 … B (d-1)`: `B i` is member 1 of `S i` (looking it up opens `S i` - it goes
+  into `objStmCache` - without putting `A i` into `objCache`);
 * optionally a plain stream `T` whose `/Length` is the reference `A 1`.
 
-Loading `A i` therefore loads `A (i+1)` inside it, and so on to `A d`: `d - i + 1` nested loads.
-(ISO 32000-1 7.5.7 forbids holding the `/Length` of an object stream in an object stream: a
-conforming file has `d ≤ 2`.) Core Lean only.
+Loading `A i` (or `B i`) therefore loads `A (i+1)` inside it, and so on to `A d`: `d - i + 1`
+nested loads. (ISO 32000-1 7.5.7 forbids holding the `/Length` of an object stream in an
+object stream: a conforming file has `d ≤ 2`.)
+
+`namespace Old` keeps the cache rule of 129dd3d as it stood before the repair (`objCache` and
+`objStmCache` consulted without counting), for the pinned counterexample. Core Lean only.
 -/
 namespace Tabula.XrefNest
 
 /-- `maxNestedLoads` of reader/reader.go -/
 def maxNestedLoads : Nat := 16
+
+/-- `objCache` with `objNeed` (the `A i`, the `B i`, the `S i` looked up as objects, `T`: number
+and need), `objStmCache` with `stmNeed` (the `S i` opened as object streams), and `reach` -/
+structure Caches where
+  objA : List (Nat × Nat) := []
+  objB : List (Nat × Nat) := []
+  objS : List (Nat × Nat) := []
+  objT : Option Nat := none
+  stm : List (Nat × Nat) := []
+  reach : Nat := 0
+  deriving Repr, DecidableEq
+
+/-- `nestCached(need)` with `L` objects being loaded: the hit is refused where the load it
+stands for would be; otherwise `reach` is raised as that load would have raised it -/
+def nestCached (need L : Nat) (st : Caches) : Bool × Caches :=
+  if maxNestedLoads < L + need then (false, st)
+  else (true, { st with reach := max st.reach (L + need) })
+
+/-- `objCache[n]`/`objNeed[n]` of a member: `b = false` the `A i`, `b = true` the `B i` -/
+def Caches.member (st : Caches) (b : Bool) : List (Nat × Nat) := if b then st.objB else st.objA
+
+/-- `r.objCache[objNum] = obj; r.objNeed[objNum] = need` -/
+def Caches.cacheMember (st : Caches) (b : Bool) (i need : Nat) : Caches :=
+  if b then { st with objB := (i, need) :: st.objB } else { st with objA := (i, need) :: st.objA }
+
+/-- is `A i` (`b = false`) / `B i` (`b = true`) an object of the file -/
+def memberExists (d : Nat) (b : Bool) (i : Nat) : Bool :=
+  if b then decide (1 ≤ i ∧ i < d) else decide (1 ≤ i ∧ i ≤ d)
+
+/-- the deferred `if r.reach < outer { r.reach = outer }` -/
+def restoreReach (outer : Nat) (st : Caches) : Caches := { st with reach := max st.reach outer }
+
+/-- `getObjectStream(S i)` with `L` objects being loaded (the member included); `nested` is the
+`GetObject(A (i+1))` by which `getUncompressedObject` → `parseStream` resolves the `/Length` -/
+def openStm (i L : Nat) (st : Caches) (nested : Caches → Bool × Caches) : Bool × Caches :=
+  match st.stm.lookup i with
+  | some need => nestCached need L st                           -- objStmCache: counted as its load
+  | none =>
+    -- outer := r.reach; r.reach = len(r.loading); getUncompressedObject
+    let r := nested { st with reach := L }
+    let need := r.2.reach - L
+    let st3 := restoreReach st.reach r.2
+    if r.1 then (true, { st3 with stm := (i, need) :: st3.stm }) else (false, st3)
+
+/-- `GetObject(A i)` / `GetObject(B i)` with `L` objects already being loaded: found or error,
+and the reader's state afterwards. `fuel` makes the recursion structural (`d + 1` is enough). -/
+def getM (d : Nat) : Nat → Bool → Nat → Nat → Caches → Bool × Caches
+  | 0, _, _, _, st => (false, st)
+  | fuel + 1, b, i, L, st =>
+    match (st.member b).lookup i with
+    | some need => nestCached need L st                         -- objCache: counted as its load
+    | none =>
+      if !memberExists d b i then (false, st)                   -- no entry in the table
+      else if maxNestedLoads ≤ L then (false, st)               -- len(r.loading) >= maxNestedLoads
+      else
+        -- r.loading[objNum] = true; outer := r.reach; r.reach = len(r.loading)
+        let st1 : Caches := { st with reach := L + 1 }
+        let r : Bool × Caches :=
+          if !b && i = d then (true, st1)                       -- a plain object
+          else openStm i (L + 1) st1 (getM d fuel false (i + 1) (L + 1))  -- getCompressedObject
+        -- r.objCache[objNum] = obj; r.objNeed[objNum] = r.reach - len(r.loading) + 1
+        let st4 := if r.1 then r.2.cacheMember b i (r.2.reach - (L + 1) + 1) else r.2
+        (r.1, restoreReach st.reach st4)
+
+/-- `GetObject(S i)` from outside: the object stream as a plain stream object (it goes through
+`getUncompressedObject`, neither reading nor filling `objStmCache`) -/
+def getS (d : Nat) (i : Nat) (st : Caches) : Bool × Caches :=
+  match st.objS.lookup i with
+  | some need => nestCached need 0 st
+  | none =>
+    if i = 0 ∨ d ≤ i then (false, st)
+    else
+      let r := getM d (d + 1) false (i + 1) 1 { st with reach := 1 }
+      let st4 := if r.1 then { r.2 with objS := (i, r.2.reach - 1 + 1) :: r.2.objS } else r.2
+      (r.1, restoreReach st.reach st4)
+
+/-- `GetObject(T)` from outside -/
+def getT (d : Nat) (top : Bool) (st : Caches) : Bool × Caches :=
+  match st.objT with
+  | some need => nestCached need 0 st
+  | none =>
+    if !top then (false, st)
+    else
+      let r := getM d (d + 1) false 1 1 { st with reach := 1 }
+      let st4 := if r.1 then { r.2 with objT := some (r.2.reach - 1 + 1) } else r.2
+      (r.1, restoreReach st.reach st4)
+
+inductive Op
+  | a (i : Nat)
+  | b (i : Nat)
+  | s (i : Nat)
+  | t
+  | clear
+  deriving Repr, DecidableEq
+
+/-- one operation; `ClearCache` answers nothing (`none`) and empties the caches with their
+needs (`reach` stays: every load sets it anew) -/
+def step (d : Nat) (top : Bool) (st : Caches) : Op → Option Bool × Caches
+  | .a i => let r := getM d (d + 1) false i 0 st; (some r.1, r.2)
+  | .b i => let r := getM d (d + 1) true i 0 st; (some r.1, r.2)
+  | .s i => let r := getS d i st; (some r.1, r.2)
+  | .t => let r := getT d top st; (some r.1, r.2)
+  | .clear => (none, { reach := st.reach })
+
+def run (d : Nat) (top : Bool) : Caches → List Op → List (Option Bool)
+  | _, [] => []
+  | st, op :: ops => (step d top st op).1 :: run d top (step d top st op).2 ops
+
+/-- the answer of a fresh reader (what the cache-free `getObjectB` says): the object is in the
+table and its chain of nested loads fits the limit -/
+def cold (d : Nat) (top : Bool) : Op → Option Bool
+  | .a i => some (decide (1 ≤ i ∧ i ≤ d ∧ d - i + 1 ≤ maxNestedLoads))
+  | .b i => some (decide (1 ≤ i ∧ i < d ∧ d - i + 1 ≤ maxNestedLoads))
+  | .s i => some (decide (1 ≤ i ∧ i < d ∧ d - i + 1 ≤ maxNestedLoads))
+  | .t => some (top && decide (1 ≤ d ∧ d + 1 ≤ maxNestedLoads))
+  | .clear => none
+
+/-! ## The cache rule before the repair (129dd3d as it stood): `objCache` is consulted before
+`len(r.loading)` is counted, `objStmCache` without counting. Kept for
+`C04NC.nested_cache_order_dependence_pinned_counterexample`. -/
+namespace Old
 
 /-- `objCache` (the `A i`, the `S i` looked up as objects, `T`) and `objStmCache` (the `S i`
 opened as object streams) -/
@@ -85,12 +213,6 @@ def run (d : Nat) (top : Bool) : Caches → List Op → List (Option Bool)
   | _, [] => []
   | st, op :: ops => (step d top st op).1 :: run d top (step d top st op).2 ops
 
-/-- the answer of a fresh reader (what the cache-free `getObjectB` says): the object is in the
-table and its chain of nested loads fits the limit -/
-def cold (d : Nat) (top : Bool) : Op → Option Bool
-  | .a i => some (decide (1 ≤ i ∧ i ≤ d ∧ d - i + 1 ≤ maxNestedLoads))
-  | .s i => some (decide (1 ≤ i ∧ i < d ∧ d - i + 1 ≤ maxNestedLoads))
-  | .t => some (top && decide (1 ≤ d ∧ d + 1 ≤ maxNestedLoads))
-  | .clear => none
+end Old
 
 end Tabula.XrefNest
